@@ -567,6 +567,17 @@ def d5(cx: Cx, ob: Ob) -> None:
     d = dict(writers[0][3]).get("delimiter")
     if not is_const(d, "\t"):
         ob.violate(fn.qualname, fn.where, f"write_tsv uses delimiter {show(d) if d else 'default (comma)'}", detail="delimiter")
+    esc = dict(writers[0][3]).get("escapechar")
+    if esc is not None and not is_const(esc, None):
+        # with an escape character the writer prefixes every occurrence of that character (and of the delimiter)
+        # in a field with it: what a tab-separated reader gets back is not the prefix / URI prefix that was written
+        ob.violate(
+            fn.qualname,
+            fn.where,
+            f"write_tsv sets escapechar={show(esc)}: the csv writer then doubles that character inside every field, and a plain tab-separated read (or any reader without the same escapechar) returns the doubled form - a URI prefix containing it does not read back",
+            witness="URI prefix 'file://server\\share' is written as 'file://server\\\\share'",
+            detail="escapechar",
+        )
     rows = [(c, ev, ctx) for c, ev, ctx in s.calls("writerow")]
     rows.sort(key=lambda x: x[1].line)
     header = [x for x in rows if not x[2].loops]
